@@ -324,7 +324,12 @@ impl<
         let (starts, ends) = (self.civil_starts(), self.civil_ends());
         assert!(!starts.is_empty(), "transitions is non-empty");
         let this_index = match starts.binary_search(&dtt) {
-            Err(0) => unreachable!("impossible to come before DateTime::MIN"),
+            // The first transition is a dummy at `Timestamp::MIN`, whose
+            // wall clock time is `Timestamp::MIN` shifted by the zone's
+            // initial offset. When that offset is positive, civil datetimes
+            // close to `DateTime::MIN` sort before it. Only the initial
+            // local time type can apply to them.
+            Err(0) => 0,
             Ok(i) => i,
             Err(i) => i.checked_sub(1).expect("i is non-zero"),
         };
